@@ -86,17 +86,21 @@ pub fn obs(g: &impl GraphLike) -> Value {
     let mut vvec = g.vertex_vec();
     vvec.sort();
     let evec_len = g.edge_vec().len();
-    let found_z = g.find_vertex(|v| g.vertex_type(v) == VType::Z).map(|v| json!(tag_of(g, v))).unwrap_or(json!("none"));
-    let found_h = g
-        .find_edge(|_, _, t| t == EType::H)
-        .map(|(a, b, _)| {
-            let (x, y) = (tag_of(g, a), tag_of(g, b));
-            json!([x.min(y), x.max(y)])
+    // find_vertex / find_edge: the first match by a property (names, [] when none), and every vertex / edge looked up by itself
+    let found_z: Vec<V> = g.find_vertex(|v| g.vertex_type(v) == VType::Z).into_iter().collect();
+    let found_h: Vec<V> = g.find_edge(|_, _, t| t == EType::H).map(|(a, b, _)| vec![a.min(b), a.max(b)]).unwrap_or_default();
+    let lost_v: Vec<V> = vs.iter().copied().filter(|&v| g.find_vertex(|x| x == v) != Some(v)).collect();
+    let lost_e: Vec<Value> = es
+        .iter()
+        .filter(|&&(a, b, _)| match g.find_edge(|x, y, _| (x == a && y == b) || (x == b && y == a)) {
+            Some((x, y, t)) => !((x.min(y), x.max(y)) == (a.min(b), a.max(b)) && ets(t) == es.iter().find(|e| (e.0, e.1) == (a, b)).unwrap().2),
+            None => true,
         })
-        .unwrap_or(json!("none"));
+        .map(|&(a, b, _)| json!([a, b]))
+        .collect();
     json!({"verts": verts, "edges": es, "adj": adj, "ins": g.inputs(), "outs": g.outputs(), "numv": g.num_vertices(),
            "nume": g.num_edges(), "vindex": g.vindex(), "sc": sc_json(g.scalar()), "sf": sf, "contains": contains, "conn": conn,
-           "vvec": vvec, "evec_len": evec_len, "found_z": found_z, "found_h": found_h})
+           "vvec": vvec, "evec_len": evec_len, "found_z": found_z, "found_h": found_h, "lost_v": lost_v, "lost_e": lost_e})
 }
 
 fn ph(k: i64) -> Phase {
